@@ -64,6 +64,7 @@ class SimDisk:
         self.opens = {}
         self.log = []
         self.fired = {}
+        self.served = []
         self._real = None
 
     def install(self):
@@ -117,14 +118,21 @@ class SimDisk:
                 from openpyxl.utils.exceptions import InvalidFileException
                 raise InvalidFileException('unsupported extension (simulated)')
             if kind == 'EIO_MID':
-                return self._real(_FailingReader(data, arg % max(len(data), 1)),
-                                  **kw)
-            if kind == 'TRUNC':
-                data = data[:arg % max(len(data), 1)]
-            elif kind == 'GARBAGE':
-                data = bytes((arg * 7 + i * 13) % 251 for i in range(64))
-            elif kind == 'FLIP':
-                data = flip_payload_byte(data, arg)
+                src = _FailingReader(data, arg % max(len(data), 1))
+            else:
+                if kind == 'TRUNC':
+                    data = data[:arg % max(len(data), 1)]
+                elif kind == 'GARBAGE':
+                    data = bytes((arg * 7 + i * 13) % 251 for i in range(64))
+                elif kind == 'FLIP':
+                    data = flip_payload_byte(data, arg)
+                src = io.BytesIO(data)
+            # a corrupted byte the reader never looks at (CRC-protected member
+            # it does not open) is not a fault: remember that it was served
+            wb = self._real(src, **kw)
+            self.served.append(path)
+            self.log.append(('served-despite', os.path.basename(path), kind))
+            return wb
         return self._real(io.BytesIO(data), **kw)
 
 
